@@ -49,7 +49,7 @@ def check(case, ctx):
             nontriv = True
         ctx.near("F(hR)=F(h)exp(-2pi i h.t)", abs(FR - expect) / tl, 1.0, "transformation-law/%s/%s" % (tag, "+".join(kinds)),
                  "%s (Sg%d %s) atoms %s: F(hR) = %r, F(h) exp(-2 pi i h.t) = %r for h=%r, op %d; |dev|/S = %g" % (
-                     M.name, g.no, g.choice, kinds, FR, expect, h.tolist(), j, abs(FR - expect) / M.S))
+                     M.name, g.no, g.choice, kinds, FR, expect, h.tolist(), j, abs(FR - expect) / max(M.S, 1e-300)))
         ctx.near("|F| over orbit", abs(abs(FR) - abs(F)) / tl, 1.0, "modulus-over-orbit/%s/%s" % (tag, "+".join(kinds)),
                  "%s: |F(hR)| = %r != |F(h)| = %r for h=%r op %d" % (M.name, abs(FR), abs(F), h.tolist(), j))
         Fm = SF.sfcalc(M, -h, disper=None)
